@@ -6,6 +6,9 @@
 //          H                 Hash()       -> <32-byte root hex>
 //          W                 WriteDirty(batcher): commits the trie, every node becomes clean and keeps its
 //                            cached Merkle value (no observable; no effect on the content)
+//          S                 tr = tr.Snapshot(): the history continues on the snapshot (next generation), so
+//                            every later mutation goes through the copy-on-write branch of prepForMutation and
+//                            finds clean nodes with cached Merkle values (no observable; no effect on the content)
 //          (every case ends with H; W followed by further Put/Delete/H exercises the Dirty/MerkleValue cache)
 //          layout <ver:0|1> <key>=<value> ...   trie.V<ver>.Root(NewEmptyTrie(), entries) -> <root hex>
 //   keys/values are hex, "-" = empty.
@@ -79,6 +82,8 @@ func c01Run(in string) (out string) {
 					toks = append(toks, "err")
 					return strings.Join(toks, " ")
 				}
+			case "S":
+				tr = tr.Snapshot()
 			case "H":
 				h, err := tr.Hash()
 				if err != nil {
@@ -116,6 +121,7 @@ type c01Gen struct {
 	r    *vu.RNG
 	keys map[string]bool
 	long []byte // base of the long-key family of this case
+	wide bool   // short keys over all 256 byte values instead of the six-letter alphabet
 }
 
 func (g *c01Gen) pick() ([]byte, bool) {
@@ -164,7 +170,11 @@ func (g *c01Gen) key(longMode bool) []byte {
 	n := r.Intn(4)
 	k := make([]byte, n)
 	for i := range k {
-		k[i] = c01Alphabet[r.Intn(len(c01Alphabet))]
+		if g.wide {
+			k[i] = byte(r.Intn(256)) // every child index and bitmap bit
+		} else {
+			k[i] = c01Alphabet[r.Intn(len(c01Alphabet))]
+		}
 	}
 	return k
 }
@@ -183,10 +193,89 @@ func (g *c01Gen) risky(k []byte) bool {
 	return false
 }
 
+// c01PkCase builds a trie that has a node of a chosen kind whose partial key has exactly [l] nibbles:
+// kind 0 = leaf, 1 = branch with a value, 2 = branch without a value; the values are long (hashed in
+// version 1) or short.  [l] is taken around the three header length escapes (63 for the plain variants,
+// 31 for a leaf with a hashed value, 15 for a branch with a hashed value) and around escape + 255.
+// A few deletes then merge / split the node again (handleDeletion with long partial keys).
+func c01PkCase(r *vu.RNG) string {
+	ls := []int{13, 14, 15, 16, 17, 29, 30, 31, 32, 33, 61, 62, 63, 64, 65, 269, 270, 271, 285, 286, 287, 317, 318, 319}
+	l := ls[r.Intn(len(ls))]
+	kind := r.Intn(3)
+	ver := 1
+	if r.Chance(1, 4) {
+		ver = 0
+	}
+	val := func() string {
+		if r.Chance(2, 3) {
+			return vu.Hex(r.Bytes(33 + r.Intn(3)))
+		}
+		return vu.Hex(r.Bytes(c01ValueLens[r.Intn(len(c01ValueLens))]))
+	}
+	var b strings.Builder
+	fmt.Fprintf(&b, "root %d", ver)
+	// a key of n nibbles as bytes needs n even; an odd partial key is obtained below a root branch
+	// (one nibble is the child index)
+	switch kind {
+	case 0:
+		// leaf with partial key l: odd l -> two keys of (l+1)/2 bytes diverging in the first nibble;
+		// even l -> two keys of (l+2)/2 bytes sharing the first nibble and diverging in the second
+		n := (l + 2) / 2
+		k1 := r.Bytes(n)
+		k2 := r.Bytes(n)
+		if l%2 == 1 {
+			k1[0] = k1[0]&0x0f | 0x10
+			k2[0] = k2[0]&0x0f | 0x20
+		} else {
+			k1[0] = 0x31
+			k2[0] = 0x32
+		}
+		fmt.Fprintf(&b, " P:%s:%s P:%s:%s H", vu.Hex(k1), val(), vu.Hex(k2), val())
+		if r.Chance(1, 2) {
+			fmt.Fprintf(&b, " W P:%s:%s H D:%s H", vu.Hex(k1), val(), vu.Hex(k2))
+		}
+	default:
+		// branch with partial key l: even l -> the branch is the root, its key A has l/2 bytes;
+		// odd l -> A has (l+1)/2 bytes and a sibling key diverging in the first nibble makes A's node a child
+		n := (l + 1) / 2
+		a := r.Bytes(n)
+		if l%2 == 1 {
+			a[0] = a[0]&0x0f | 0x10
+			sib := r.Bytes(1 + r.Intn(2))
+			sib[0] = sib[0]&0x0f | 0x20
+			fmt.Fprintf(&b, " P:%s:%s", vu.Hex(sib), val())
+		}
+		c1 := append(append([]byte{}, a...), 0x01)
+		c2 := append(append([]byte{}, a...), 0x12)
+		if kind == 1 {
+			fmt.Fprintf(&b, " P:%s:%s", vu.Hex(a), val())
+		}
+		fmt.Fprintf(&b, " P:%s:%s P:%s:%s H", vu.Hex(c1), val(), vu.Hex(c2), val())
+		switch r.Intn(4) {
+		case 0:
+			fmt.Fprintf(&b, " W D:%s H", vu.Hex(c1)) // merge with the last child / turn into a leaf
+		case 1:
+			fmt.Fprintf(&b, " S D:%s H D:%s H", vu.Hex(c2), vu.Hex(c1))
+		case 2:
+			if kind == 1 {
+				fmt.Fprintf(&b, " W D:%s H P:%s:%s H", vu.Hex(a), vu.Hex(a), val())
+			}
+		}
+	}
+	if !strings.HasSuffix(b.String(), " H") {
+		b.WriteString(" H")
+	}
+	return b.String()
+}
+
 func c01GenCase(r *vu.RNG) string {
 	g := &c01Gen{r: r, keys: map[string]bool{}, long: r.Bytes(160)}
 	longMode := r.Chance(1, 6)
+	g.wide = r.Chance(1, 5)
 	nops := 3 + r.Intn(14)
+	if g.wide {
+		nops += 10 // enough keys to fill many child slots
+	}
 	delPct := 20 + r.Intn(41)
 	var b strings.Builder
 	fmt.Fprintf(&b, "root %d", r.Intn(2))
@@ -222,6 +311,9 @@ func c01GenCase(r *vu.RNG) string {
 		}
 		if r.Chance(1, 5) {
 			b.WriteString(" W")
+			if r.Chance(1, 3) {
+				b.WriteString(" S")
+			}
 		}
 	}
 	b.WriteString(" H")
@@ -239,6 +331,11 @@ func c01Generate(r *vu.RNG, n int, emit func(string)) {
 		"root 1 P:0101:aa P:0102:bb W P:0103:cc H W D:0102 H W P:01:dd H",
 		"layout 0 01=aa 0102=bb 01=cc",
 		"layout 1 -=00 00=01",
+		"root 1 P:0101:aa P:0102:bb H W S P:0103:cc H D:0101 H W S D:0102 H D:0103 H",
+		// values whose SCALE length prefix takes two and four bytes (64, 16383, 16384 bytes), inlined in
+		// version 0 and hashed in version 1
+		"root 0 P:01:" + strings.Repeat("ab", 64) + " P:02:" + strings.Repeat("cd", 16383) + " P:0311:" + strings.Repeat("ef", 16384) + " H",
+		"root 1 P:01:" + strings.Repeat("ab", 64) + " P:02:" + strings.Repeat("cd", 16383) + " P:0311:" + strings.Repeat("ef", 16384) + " H D:02 H",
 	} {
 		emit(s)
 	}
@@ -281,6 +378,10 @@ func c01Generate(r *vu.RNG, n int, emit func(string)) {
 				fmt.Fprintf(&b, " %s=%s", vu.Hex(k), vu.Hex(g.r.Bytes(c01ValueLens[g.r.Intn(len(c01ValueLens))])))
 			}
 			emit(b.String())
+			continue
+		}
+		if r.Chance(1, 5) {
+			emit(c01PkCase(r.Fork()))
 			continue
 		}
 		emit(c01GenCase(r.Fork()))
